@@ -35,7 +35,7 @@ NOT_ASSERTED = ['rejection of malformed exotic cells (the property only demands 
 
 
 def BOUNDS(tier):
-    return {'masks': '1..7 all', 'base_nodes': 3 if tier == 'quick' else 4, 'layers': 3, 'routes': ['Builder(type_)', 'Cell(...)', 'BoC parse of reference bytes'],
+    return {'masks': '1..7 all', 'base_nodes': 3 if tier == 'quick' else '4 (nested layers), 5 (single layer)', 'layers': 3, 'routes': ['Builder(type_)', 'Cell(...)', 'BoC parse of reference bytes'],
             'exhaustive': True}
 
 
@@ -52,7 +52,7 @@ def selftest():
 
 def REQUIRED_COVER(tier):
     return ({f'pruned-mask:{m}' for m in range(1, 8)} | {f'ancestor-mask:{m}' for m in range(1, 8)} |
-            {'type:lib', 'type:mproof', 'type:mupdate', 'layers:3', 'route:boc'})
+            {'type:lib', 'type:mproof', 'type:mupdate', 'layers:3', 'route:boc', 'route:boc+hashes'})
 
 
 # ------------------------------------------------------------------ terms
@@ -147,12 +147,14 @@ def check_tree(rec, rc, fn, args, tag):
             rec.covered('type:mproof')
         elif c.type == RC.MUPDATE:
             rec.covered('type:mupdate')
-    for route in ('builder', 'ctor', 'boc'):
+    # stored hashes are only used where their layout is unambiguous (every level mask in the tree contiguous from the bottom)
+    contiguous = all(c.mask in (0, 1, 3, 7) for c in cells.values())
+    for route in ('builder', 'ctor', 'boc') + (('boc+hashes',) if contiguous else ()):
         try:
-            if route == 'boc':
-                data = RB.encode([rc])
+            if route.startswith('boc'):
+                data = RB.encode([rc], with_hashes=(lambda c: True) if route == 'boc+hashes' else (lambda c: False))
                 root = Cell.one_from_boc(data)
-                rec.covered('route:boc')
+                rec.covered('route:' + route)
                 if lib_canon(root) != RC.canon(rc):
                     rec.violation(f'{tag}:boc-structure', f'parsing reference BoC bytes of {rc!r} gives a different tree', fn, args)
                     return False
@@ -369,8 +371,13 @@ def shards(tier, seed):
     out = [{'fn': 'shard_raw', 'args': {}}]
     for p in range(4):
         out.append({'fn': 'shard_layer1', 'args': {'nmax': nmax, 'part': p, 'parts': 4}})
-    for p in range(12):
-        out.append({'fn': 'shard_layer2', 'args': {'nmax': 3, 'part': p, 'parts': 12}, 'prio': 2})
-    for p in range(12):
-        out.append({'fn': 'shard_layer3', 'args': {'nmax': 3, 'part': p, 'parts': 12}, 'prio': 3})
+    n23 = 3 if tier == 'quick' else 4
+    parts = 12 if tier == 'quick' else 48
+    for p in range(parts):
+        out.append({'fn': 'shard_layer2', 'args': {'nmax': n23, 'part': p, 'parts': parts}, 'prio': 2})
+    for p in range(parts):
+        out.append({'fn': 'shard_layer3', 'args': {'nmax': n23, 'part': p, 'parts': parts}, 'prio': 3})
+    if tier == 'thorough':
+        for p in range(8):
+            out.append({'fn': 'shard_layer1', 'args': {'nmax': 5, 'part': p, 'parts': 8}, 'prio': 1})
     return out
